@@ -42,6 +42,14 @@ func c15Module(i, n int, adj [][]bool, nested bool, selective bool, variant stri
 			p.Imports = append(p.Imports, im)
 		}
 	}
+	if variant == "lib-everywhere" {
+		// every module of the graph (and the main file) imports the same registered library
+		im := zr.Import{Name: "@样品库", Std: true}
+		if selective {
+			im.Items = []string{"取常数"}
+		}
+		p.Imports = append(p.Imports, im)
+	}
 	body := []zr.Stmt{}
 	if i > 0 {
 		// definitions: a helper, a method that uses the helper and the module's type
@@ -146,12 +154,15 @@ func c15Build(n int, mask uint64, nested, selective bool, variant string) c15Cas
 	}
 	ip := zr.NewInterp()
 	ip.Files = progs
+	if variant == "lib-everywhere" {
+		ip.Libs = map[string]map[string]zr.Value{"@样品库": {"取常数": zr.VNull{}, "样品": zr.VNull{}, "HTTP响应": zr.VNull{}, "HTTP请求": zr.VNull{}}}
+	}
 	ref := ip.Run(mainProg)
 	return c15Case{files: files, ref: ref, shape: fmt.Sprintf("n%d/%v/%v/%s", n, nested, selective, variant), desc: strings.Join(edges, " ")}
 }
 
 func checkC15(c *Ctx) {
-	c.rule = "module graphs as directories of .zn files: every digraph (self-loops included) on main + 2 modules (quick) / main + 3 modules (thorough; 4096 graphs) x import style (all / listed) x flat or nested module names (A-B-C -> A/B/C.zn); every module body displays a marker, defines a helper, a type and a method that uses both and calls the methods it imported; the main file calls what it imported. Variants: calling an unlisted name, assigning to an imported method / type, redefining an imported name, missing module, missing library, repeated import of one module, library import. Oracle: module model of the reference evaluator (each reachable body exactly once, dependencies first, before the importer's statements; exports = methods and types, read-only; cycle => error 63; missing module 60, missing library 64); tick budget decides hangs. distinct_nontrivial = distinct (graph, style, variant)"
+	c.rule = "module graphs as directories of .zn files: every digraph (self-loops included) on main + 2 modules (quick) / main + 3 modules (thorough; 4096 graphs) x import style (all / listed) x flat or nested module names (A-B-C -> A/B/C.zn); every module body displays a marker, defines a helper, a type and a method that uses both and calls the methods it imported; the main file calls what it imported. Variants: calling an unlisted name, assigning to an imported method / type, redefining an imported name, missing module, missing library, repeated import of one module, library import, the same library imported by every module of the graph, an imported method reached through an alias / as an argument / from a list / as a method of an object the module handed out (also when the importer has a type and a helper of the same names), methods defined inside a method body (not exported, outer method callable repeatedly), a module file named like the main module. Oracle: module model of the reference evaluator (each reachable body exactly once, dependencies first, before the importer's statements; exports = methods and types, read-only; cycle => error 63; missing module 60, missing library 64); tick budget decides hangs. distinct_nontrivial = distinct (graph, style, variant)"
 	c.assumptions = []string{"the main file cannot be imported by name, so edges into it are not generated", "selective import of a name the module does not export is not generated (unspecified)"}
 	var cases []c15Case
 	n := c.Pick(3, 4)
@@ -177,7 +188,7 @@ func checkC15(c *Ctx) {
 	c.Count("exhaustive_graph_cases", int64(len(cases)))
 	// variants on a few fixed graphs
 	rng := c.Rand("c15")
-	for _, variant := range []string{"unlisted", "assign-import", "assign-type", "redeclare-import"} {
+	for _, variant := range []string{"unlisted", "assign-import", "assign-type", "redeclare-import", "lib-everywhere"} {
 		for i := 0; i < c.Pick(30, 600); i++ {
 			mask := rng.Uint64() % total
 			cases = append(cases, c15Build(n, mask, rng.Intn(2) == 0, variant == "unlisted" || rng.Intn(2) == 0, variant))
@@ -213,6 +224,45 @@ func checkC15(c *Ctx) {
 		mainE := &zr.Program{Imports: []zr.Import{{Name: "坏模"}}, Body: []zr.Stmt{zr.Show(zr.S("not-reached"))}}
 		badP := &zr.Program{Body: []zr.Stmt{zr.Show(zr.S("body:坏模")), zr.Show(zr.Bin{Op: "/", L: intLit(1), R: intLit(0)})}}
 		special("module-runtime-error", map[string]string{"main.zn": zr.Render(mainE, zr.Layout{}), "坏模.zn": zr.Render(badP, zr.Layout{})}, nil, mainE, map[string]*zr.Program{"坏模": badP})
+	}
+	{
+		// "an imported method behaves as it does inside its own module" however it is reached:
+		// through an alias, as an argument, as a method of an object the module handed out; and
+		// only the module's own top-level methods and types are exported
+		helper := &zr.FuncDef{Name: "助手", Body: []zr.Stmt{zr.Return{E: zr.S("模甲助手")}}}
+		greet := &zr.FuncDef{Name: "问好", Params: []string{"名"}, Body: []zr.Stmt{zr.Return{E: zr.ListLit{Items: []zr.Expr{zr.CallE("助手"), zr.N("名")}}}}}
+		cat := zr.ClassDef{Name: "猫", Props: []zr.PropDef{{Name: "名", Val: zr.S("咪")}}, Methods: []*zr.FuncDef{{Name: "叫", Body: []zr.Stmt{zr.Return{E: zr.ListLit{Items: []zr.Expr{zr.CallE("助手"), zr.ThisProp{Prop: "名"}}}}}}}}
+		maker := &zr.FuncDef{Name: "造", Body: []zr.Stmt{zr.Return{E: zr.New{Class: "猫"}}}}
+		innerF := &zr.FuncDef{Name: "内", Body: []zr.Stmt{zr.Return{E: intLit(5)}}}
+		outerF := &zr.FuncDef{Name: "外", Body: []zr.Stmt{innerF, zr.Return{E: zr.CallE("内")}}}
+		modP := &zr.Program{Body: []zr.Stmt{helper, greet, cat, maker, outerF, zr.Show(zr.S("body:模甲"), zr.CallE("外"))}}
+		mods := map[string]*zr.Program{"模甲": modP}
+		mk := func(shape string, imp zr.Import, body ...zr.Stmt) {
+			mainP := &zr.Program{Imports: []zr.Import{imp}, Body: body}
+			special(shape, map[string]string{"main.zn": zr.Render(mainP, zr.Layout{}), "模甲.zn": zr.Render(modP, zr.Layout{})}, nil, mainP, mods)
+		}
+		for _, sel := range []bool{false, true} {
+			tag := map[bool]string{false: "all", true: "listed"}[sel]
+			imp := func(items ...string) zr.Import {
+				if sel {
+					return zr.Import{Name: "模甲", Items: items}
+				}
+				return zr.Import{Name: "模甲"}
+			}
+			mk("reach/direct/"+tag, imp("问好"), zr.Show(zr.CallE("问好", zr.S("a"))))
+			mk("reach/alias/"+tag, imp("问好"), zr.LetS("别", zr.N("问好")), zr.Show(zr.CallE("别", zr.S("a"))))
+			mk("reach/argument/"+tag, imp("问好"), &zr.FuncDef{Name: "用", Params: []string{"函"}, Body: []zr.Stmt{zr.Return{E: zr.CallE("函", zr.S("b"))}}}, zr.Show(zr.CallE("用", zr.N("问好"))))
+			mk("reach/in-list/"+tag, imp("问好"), zr.LetS("表", zr.ListLit{Items: []zr.Expr{zr.N("问好")}}), zr.Iter{Names: []string{"函"}, Over: zr.N("表"), Body: []zr.Stmt{zr.Show(zr.CallE("函", zr.S("c")))}})
+			mk("reach/object-method/"+tag, imp("造"), zr.LetS("物", zr.CallE("造")), zr.Show(zr.MCall{Recv: zr.N("物"), Chain: []zr.CallPart{{Fn: "叫"}}}))
+			mk("reach/object-method-own-type-same-name/"+tag, imp("造"), zr.ClassDef{Name: "猫", Props: []zr.PropDef{{Name: "名", Val: zr.S("主")}}}, &zr.FuncDef{Name: "助手", Body: []zr.Stmt{zr.Return{E: zr.S("主助手")}}},
+				zr.LetS("物", zr.CallE("造")), zr.Show(zr.MCall{Recv: zr.N("物"), Chain: []zr.CallPart{{Fn: "叫"}}}))
+			mk("nested-def/outer-twice/"+tag, imp("外"), zr.Show(zr.CallE("外")), zr.Show(zr.CallE("外")))
+		}
+		mk("nested-def/not-exported", zr.Import{Name: "模甲"}, zr.Show(zr.S("leak?"), zr.CallE("内")))
+		// a module file that happens to be called like the main module
+		namedMain := &zr.Program{Body: []zr.Stmt{&zr.FuncDef{Name: "法", Body: []zr.Stmt{zr.Return{E: intLit(7)}}}, zr.Show(zr.S("body:主模块"))}}
+		mainM := &zr.Program{Imports: []zr.Import{{Name: "主模块"}}, Body: []zr.Stmt{zr.Show(zr.CallE("法"))}}
+		special("module-named-like-main", map[string]string{"main.zn": zr.Render(mainM, zr.Layout{}), "主模块.zn": zr.Render(namedMain, zr.Layout{})}, nil, mainM, map[string]*zr.Program{"主模块": namedMain})
 	}
 	reqs := make([]Req, len(cases))
 	for i, cs := range cases {
